@@ -90,7 +90,10 @@ Definition no_open_paren (es : list parsed_entry) : bool :=
 
 Lemma no_open_paren_map : forall es,
   no_open_paren es = forallb (fun e => negb (entry_open_paren e)) (map e_entry es).
-Proof. intros. unfold no_open_paren. rewrite forallb_map. reflexivity. Qed.
+Proof.
+  intros. unfold no_open_paren. induction es as [| e es IH]; [reflexivity |].
+  cbn [forallb map]. rewrite IH. reflexivity.
+Qed.
 
 Theorem format_preserves_parsed : forall w s es,
   parse_ledger s = LOk es -> no_open_paren es = true ->
